@@ -20,6 +20,26 @@ FILE_FMTS = ['file://{path}', 'vscode://file/{path}:{line}', 'x://{host}/{path}#
 COMMIT_FMTS = ['https://example.com/c/{commit}', 'c://{commit}/x/{commit}', 'https://github.com/a/b/commit/{commit}']
 
 
+REMOTES = [('https://github.com/acme/widget.git', 'https://github.com/acme/widget/commit/{commit}'),
+           ('git@github.com:acme/widget.git', 'https://github.com/acme/widget/commit/{commit}'),
+           ('https://github.com/acme/wid.get', 'https://github.com/acme/wid.get/commit/{commit}'),
+           ('https://gitlab.com/grp/sub/proj.git', 'https://gitlab.com/grp/sub/proj/-/commit/{commit}'),
+           ('git@gitlab.com:grp/proj.git', 'https://gitlab.com/grp/proj/-/commit/{commit}'),
+           ('https://git.sr.ht/~someone/thing', 'https://git.sr.ht/~someone/thing/commit/{commit}'),
+           ('git@codeberg.org:org/repo.git', 'https://codeberg.org/org/repo/commit/{commit}')]
+
+
+def make_repo(url):
+    """A scratch repository whose origin is `url`; returns its directory (delta runs inside it)."""
+    import subprocess
+    import tempfile
+    d = tempfile.mkdtemp(prefix='c19repo', dir=os.path.join(runner.workdir(), 'tmp'))
+    env = dict(os.environ, HOME=d, GIT_CONFIG_NOSYSTEM='1')
+    subprocess.run(['git', 'init', '-q', d], env=env, stdout=subprocess.DEVNULL, stderr=subprocess.DEVNULL)
+    subprocess.run(['git', '-C', d, 'remote', 'add', 'origin', url], env=env, stdout=subprocess.DEVNULL, stderr=subprocess.DEVNULL)
+    return d
+
+
 def plan(ctx):
     n = ctx.n(4000, 60000)
     return [('case', engine.stable_hash((ctx.seed, 'c19', i))) for i in range(n)]
@@ -66,12 +86,19 @@ def run_item(item):
             case['lines'] = case['lines'][:k] + stat + case['lines'][k:]
     file_fmt = rng.choice(FILE_FMTS)
     commit_fmt = rng.choice(COMMIT_FMTS)
+    repo_cwd = None
+    if case['kind'] == 'log' and rng.random() < 0.25:
+        # no commit link format given: it is derived from the URL of the repository's "origin" remote
+        url, commit_fmt = rng.choice(REMOTES)
+        repo_cwd = make_repo(url)
+        if opts.get('--commit-style') in (None, 'raw', 'omit'):
+            opts['--commit-style'] = gen.TAGS.get('commit', '#a0b0c0')      # commit lines are only linked when delta styles them
     mode = 'pty' if rng.random() < 0.4 else 'pipe'
     size = (24, rng.choice([60, 80, 121, 200]))
     if mode == 'pty' and '--dark' not in opts and '--light' not in opts:
         opts['--dark'] = True
     data = workload.data_of(case)
-    a = runner.run_delta(gen.to_args(opts), data, mode=mode, pty_size=size, env=env, **workload.parent_kw(case))
+    a = runner.run_delta(gen.to_args(opts), data, mode=mode, pty_size=size, env=env, cwd=repo_cwd, **workload.parent_kw(case))
     c = crash_outcome(a, ID)
     if c is not None:
         return c
@@ -80,14 +107,18 @@ def run_item(item):
     hopts = dict(opts)
     hopts['--hyperlinks'] = True
     hopts['--hyperlinks-file-link-format'] = file_fmt
-    hopts['--hyperlinks-commit-link-format'] = commit_fmt
-    b = runner.run_delta(gen.to_args(hopts), data, mode=mode, pty_size=size, env=env, **workload.parent_kw(case))
+    if repo_cwd is None:
+        hopts['--hyperlinks-commit-link-format'] = commit_fmt
+    b = runner.run_delta(gen.to_args(hopts), data, mode=mode, pty_size=size, env=env, cwd=repo_cwd, **workload.parent_kw(case))
+    if repo_cwd is not None:
+        import shutil
+        shutil.rmtree(repo_cwd, ignore_errors=True)
     c = crash_outcome(b, ID)
     if c is not None:
         c['executions'] = 2
         return c
     counters = {'links': 0, 'file_links': 0, 'line_links': 0, 'commit_links': 0, 'pairs': 1}
-    sets = {'kinds': [case['kind']], 'views': [case['view']], 'option_classes': case['meta']['classes'] + (['file-transformation'] if xf else []) + (['relative-paths+GIT_PREFIX'] if prefix else []), 'mode': [mode],
+    sets = {'kinds': [case['kind']], 'views': [case['view']], 'option_classes': case['meta']['classes'] + (['file-transformation'] if xf else []) + (['relative-paths+GIT_PREFIX'] if prefix else []) + (['remote-derived-commit-links'] if repo_cwd else []), 'mode': [mode],
             'file_fmt': [file_fmt]}
 
     def bad(key, what, exp=None, obs=None):
@@ -166,7 +197,11 @@ def run_item(item):
                     counters['line_links'] += 1
                 else:
                     continue
-                cands = [shown_path] if shown_path is not None else sorted(paths)
+                # a link that shows no path of its own (line numbers in the gutter, hunk-header number) names the file the
+                # section is about: its new name, or the old one when the file was deleted
+                cands = [shown_path] if shown_path is not None else [disp(s.new_path if s.kind != 'deleted' else s.old_path)]
+                if d.fmt == 'plainr' and shown_path is None:
+                    cands = ['new/' + s.new_path]
                 lines_ok = [line]
                 if info.kind == 'hunk' and line == '':
                     # no number is displayed beside the path: the link may carry the hunk's start line
@@ -224,6 +259,13 @@ def run_item(item):
                     if uri != exp:
                         return bad('commit-target', 'commit link in blame output does not match the wrapped hash', exp, uri)
                     counters['commit_links'] += 1
+    if case['kind'] == 'log' and opts.get('--commit-style') not in (None, 'raw', 'omit') and 'raw' not in str(opts.get('--commit-style')).split():
+        # the commit line of a log carries a link on its hash
+        if counters['commit_links'] == 0 and re.search('[a-f]', case.get('commit', 'a')):      # (a hash without a letter is taken for a number)
+            return bad('commit-link-missing', 'the commit line carries no hyperlink on its hash (%s)' % ('format derived from the origin remote' if repo_cwd else 'configured format'),
+                       commit_fmt, 'no link')
+        if repo_cwd:
+            counters['remote_derived_commit_links'] = counters['commit_links']
     sig = (case['kind'], case['view'], tuple(sorted(case['meta']['classes'])), file_fmt, commit_fmt, mode)
     o = held(sig=sig, nontrivial=counters['links'] > 0, counters=counters, sets=sets,
              sample={'kind': case['kind'], 'view': case['view'], 'file_fmt': file_fmt, 'links': counters['links'],
